@@ -394,3 +394,38 @@ package scan
 //@   loop 1 row last:   [call Int64(_) as (v) ; send? out bind_x ; call Next(it) as (more)]
 //@                         when !more && v == pre(big(it.I)) && istype(x, WrapPort) && astype(x, WrapPort) == portRange.StartPort - 1 + v
 //@                           && portRange.StartPort <= astype(x, WrapPort) && astype(x, WrapPort) <= portRange.EndPort -> loop 0
+
+// request generators: for every received port, ONE complete pass over the address stream, one request per address
+// carrying that address, that port and the range's source addresses; then the address generator is started again
+// exactly once. (ports x addresses, each pair once, by the fold schema over the two loops.)
+//@ func (*ipPortGenerator).GenerateRequests$1
+//@   props C01 C12
+//@   observe GetPort, GetIP, IPs
+//@   loop 0 row closed:   [recv ports as (p, false) ; close out] -> exit
+//@   loop 0 row porterr:  [recv ports as (p, true) ; call GetPort(p) as (port, e) ; send? out bind_x] when e != nil && x.Err == e -> continue
+//@   loop 0 row pass:     [recv ports as (p, true) ; call GetPort(p) as (port, e)] when e == nil -> loop 1
+//@   loop 1 row request:  [recv pre(ips) as (a, true) ; call GetIP(a) as (dstip, e2) ; send? out bind_x]
+//@                           when x.DstIP == dstip && x.DstPort == port && x.Err == e2 && x.SrcIP == r.SrcIP && x.SrcMAC == r.SrcMAC -> continue
+//@   loop 1 row passdone: [recv pre(ips) as (a, false) ; call IPs(rg.ipgen, ctx, r) as (nips, e3)] when e3 == nil && ips == nips -> loop 0
+//@   loop 1 row regenerr: [recv pre(ips) as (a, false) ; call IPs(rg.ipgen, ctx, r) as (nips, e3) ; send? out bind_x ; close out] when e3 != nil && x.Err == e3 -> exit
+//@ func (*ipPortGenerator).GenerateRequests
+//@   props C01
+//@   observe Ports, IPs
+//@   entry row noports: [call Ports(rg.portgen, ctx, r) as (ps, e)] when e != nil && ret0 == nil && ret1 == e -> exit
+//@   entry row noips:   [call Ports(rg.portgen, ctx, r) as (ps, e) ; call IPs(rg.ipgen, ctx, r) as (is, e2)] when e == nil && e2 != nil && ret0 == nil && ret1 == e2 -> exit
+//@   entry row start:   [call Ports(rg.portgen, ctx, r) as (ps, e) ; call IPs(rg.ipgen, ctx, r) as (is, e2) ;
+//@                       go (*ipPortGenerator).GenerateRequests$1{out: bind_o, ports: bind_ps2, ips: bind_is2, ctx: bind_c, r: bind_r2, rg: bind_g2}]
+//@                         when e == nil && e2 == nil && ret1 == nil && ret0 == o && ps2 == ps && is2 == is && c == ctx && r2 == r && g2 == rg -> exit
+
+// port-less scans (arp, icmp): one request per address of the single pass
+//@ func (*ipRequestGenerator).GenerateRequests$1
+//@   props C01 C12
+//@   observe GetIP
+//@   loop 0 row closed:  [recv ips as (a, false) ; close out] -> exit
+//@   loop 0 row request: [recv ips as (a, true) ; call GetIP(a) as (dstip, e) ; send? out bind_x] when x.DstIP == dstip && x.Err == e && x.SrcIP == r.SrcIP && x.SrcMAC == r.SrcMAC -> continue
+//@ func (*ipRequestGenerator).GenerateRequests
+//@   props C01
+//@   observe IPs
+//@   entry row noips: [call IPs(rg.ipgen, ctx, r) as (is, e)] when e != nil && ret0 == nil && ret1 == e -> exit
+//@   entry row start: [call IPs(rg.ipgen, ctx, r) as (is, e) ; go (*ipRequestGenerator).GenerateRequests$1{out: bind_o, ips: bind_is2, ctx: bind_c, r: bind_r2}]
+//@                       when e == nil && ret1 == nil && ret0 == o && is2 == is && c == ctx && r2 == r -> exit
